@@ -2280,3 +2280,56 @@ func scenForeignDialer(e *engineA) error {
 	e.sleepHB(3, 6)
 	return e.finish()
 }
+
+func init() { scenarios["late-install-response"] = scenLateInstallResponse }
+
+// scenLateInstallResponse (C15 / C17): a new node is brought up by snapshot
+// installation; its answer to the installation is held up for longer than the
+// leader waits for it (nothing is lost or reordered) and delivered afterwards
+// on the same connection.
+func scenLateInstallResponse(e *engineA) error {
+	e.prof = profiles["snapshot"]
+	if err := e.boot(3); err != nil {
+		return err
+	}
+	e.cl.startInfoSampler(e.hb() / 2)
+	l := e.cl.leader()
+	if l == nil {
+		return fmt.Errorf("no leader")
+	}
+	pad := 90 + 10*e.rng.Intn(4)
+	for i := 0; i < 20+e.rng.Intn(20); i++ {
+		e.cl.fsmOpPad(1, l, "update", pad)
+	}
+	e.sleepHB(1, 2)
+	e.cl.takeSnapshot(l, 0)
+	e.waitFor(30, func() bool {
+		info, ok := l.info(false)
+		return ok && info.FirstLogIndex > 4
+	})
+	n4, err := e.cl.start(4, e.cl.dirOf(4))
+	if err != nil {
+		return err
+	}
+	e.ids = append(e.ids, 4)
+	e.rc.emit(&ev.Rec{K: "fault", Op: "answer-to-the-installation-arrives-late", Nid: 4})
+	var armed int32 = 1
+	dir4, l4, ll := n4.dir, n4.label, l.label
+	e.rc.setOnNodeEvent(func(dir string, r *ev.Rec) {
+		if dir == dir4 && r.K == "rpc" && r.RPC == "installSnap" && atomic.CompareAndSwapInt32(&armed, 1, 0) {
+			e.net.Stall(l4, ll, true)
+		}
+	})
+	go e.cl.changeConfig(l, "add(4,promote=true)", func(c *raft.Config) error {
+		return c.AddNonvoter(4, e.cl.addrOf(4), true)
+	})
+	e.waitFor(30, func() bool { return atomic.LoadInt32(&armed) == 0 })
+	e.sleepHB(4.5, 6)
+	e.rc.setOnNodeEvent(nil)
+	e.net.Stall(l4, ll, false)
+	e.net.Release(l4, ll, false)
+	e.sleepHB(4, 6)
+	e.startClients(2, map[string]int{"update": 3, "read": 1})
+	e.sleepHB(4, 8)
+	return e.finish()
+}
